@@ -10,6 +10,9 @@ warnings.simplefilter("ignore")
 from rope.base.project import Project  # noqa: E402
 
 from mc.histops import apply_op  # noqa: E402
+from mc import guard  # noqa: E402
+
+guard.install()
 
 
 def mark(name):
